@@ -206,6 +206,58 @@ fn check_name(case: &Value) -> Option<Value> {
     None
 }
 
+/// Beyond the enumeration bound (ConfigBuild.tla is about sequences of declarations of any length): 21 .. 300 loggers
+/// with one name declared three times, at the edges and in the middle of the sequence.  The first declaration is the
+/// one that survives a lossy build - with its level, its additive flag and its references -, the two later ones are
+/// reported, everything else is kept.
+fn check_scale() -> Vec<Value> {
+    let mut out = vec![];
+    let levels = [log::LevelFilter::Error, log::LevelFilter::Warn, log::LevelFilter::Info, log::LevelFilter::Debug, log::LevelFilter::Trace];
+    for &n in &[21usize, 22, 34, 65, 300] {
+        for variant in 0..5 {
+            let pos: Vec<usize> = match variant {
+                0 => vec![0, n / 2, n - 1],
+                1 => vec![n - 3, n - 2, n - 1],
+                2 => vec![1, 2, n / 3],
+                3 => vec![n / 4, n / 2, 3 * n / 4],
+                _ => vec![0, 1, 2],
+            };
+            let mut b = log4rs::Config::builder().appender(log4rs::config::Appender::builder().build("A", Box::new(CountingAppender(Arc::new(Counter::default())))));
+            let mut all = vec![];
+            for i in 0..n {
+                let k = pos.iter().position(|p| *p == i);
+                let name = if k.is_some() { "dup".to_string() } else { format!("l{:03}", (i * 7919) % 1000 + i * 1000) };
+                let mut lb = log4rs::config::Logger::builder().additive(k.map(|k| k == 0).unwrap_or(i % 2 == 0));
+                if k == Some(0) {
+                    lb = lb.appender("A");
+                }
+                all.push(lb.build(name, match k { Some(k) => levels[k], None => levels[i % 5] }));
+            }
+            for mut run in runs(all, variant + n) {
+                b = if run.len() == 1 { b.logger(run.pop().unwrap()) } else { b.loggers(run) };
+            }
+            let (cfg, errs) = match catch(move || b.build_lossy(log4rs::config::Root::builder().build(log::LevelFilter::Off))) {
+                Ok(x) => x,
+                Err(p) => {
+                    out.push(json!({"case": -1, "input": {"loggers": n, "same_name_at": pos}, "mismatch": {"what": "lossy build panicked", "error": p}}));
+                    continue;
+                }
+            };
+            let dups: Vec<&log4rs::config::Logger> = cfg.loggers().iter().filter(|l| l.name() == "dup").collect();
+            let reported = errs.errors().iter().filter(|e| matches!(e, ConfigError::DuplicateLoggerName(x) if x == "dup")).count();
+            let ok = dups.len() == 1 && dups[0].level() == levels[0] && dups[0].additive() && dups[0].appenders() == ["A".to_string()]
+                && reported == 2 && errs.errors().len() == 2 && cfg.loggers().len() == n - 2;
+            if !ok {
+                out.push(json!({"case": -1, "input": {"loggers": n, "same_name_at": pos},
+                                "mismatch": {"what": "first declaration of a repeated logger name does not win (many loggers)",
+                                             "kept": dups.iter().map(|l| format!("{:?}", l)).collect::<Vec<_>>(), "reported_duplicates": reported,
+                                             "errors": errs.errors().len(), "loggers_kept": cfg.loggers().len()}}));
+            }
+        }
+    }
+    out
+}
+
 /// `cfgbuild <cases.ndjson> <out.ndjson>`
 pub fn main(args: &[String]) {
     quiet_panics();
@@ -214,6 +266,8 @@ pub fn main(args: &[String]) {
         let m = if c.get("valid").is_some() { check_name(c) } else { check_case(mix(i), c) };
         m.into_iter().map(|m| json!({"case": i, "input": c, "mismatch": m})).collect()
     });
+    let mut res = res;
+    res.extend(check_scale());
     write_ndjson(&args[1], &res);
     println!("{}", json!({"cases": rows.len(), "mismatches": res.len()}));
 }
